@@ -13,13 +13,13 @@ func coreLetters(keys [][]byte, prios []int32, vals [][]byte, withReads bool) fu
 	var ls []Letter
 	for _, k := range keys {
 		k := k
-		ls = append(ls, Letter{fmt.Sprintf("Del(%s)", k), func(w *harness.World) { w.Delete("x", k) }})
+		ls = append(ls, Letter{fmt.Sprintf("Del(%.3s)", k), func(w *harness.World) { w.Delete("x", k) }})
 	}
 	for _, k := range keys {
 		for _, p := range prios {
 			for _, v := range vals {
 				k, p, v := k, p, v
-				ls = append(ls, Letter{fmt.Sprintf("Set(%s,%d,%q)", k, p, v), func(w *harness.World) { w.SetItem("x", k, p, v) }})
+				ls = append(ls, Letter{fmt.Sprintf("Set(%.3s,%d,%q)", k, p, v), func(w *harness.World) { w.SetItem("x", k, p, v) }})
 			}
 		}
 	}
@@ -32,7 +32,7 @@ func coreLetters(keys [][]byte, prios []int32, vals [][]byte, withReads bool) fu
 	if withReads {
 		for _, k := range keys {
 			k := k
-			reads = append(reads, Letter{fmt.Sprintf("GetV(%s)", k), func(w *harness.World) { w.GetItem("x", k, true) }})
+			reads = append(reads, Letter{fmt.Sprintf("GetV(%.3s)", k), func(w *harness.World) { w.GetItem("x", k, true) }})
 		}
 		reads = append(reads, Letter{"VisitAll", func(w *harness.World) { w.VisitAll("x", true) }})
 	}
@@ -52,6 +52,9 @@ func ensureX(w *harness.World) {
 func initX(w *harness.World) { w.SetCollection("x", "nil") }
 
 func c01Profiles(tier string) []Profile {
+	// the third key is 60 bytes long and not periodic: keys longer than any
+	// plausible read-ahead must come back from the file byte for byte
+	kC := longKey("c", 60)
 	keys := [][]byte{kA, kB, kC}
 	dCore, dMem, dOther := 4, 5, 3
 	if tier == "thorough" {
@@ -125,13 +128,7 @@ func c01Profiles(tier string) []Profile {
 	ps = append(ps, two.Profile(fmt.Sprintf("every history of length <= %d over Set/Delete/Evict on two collections plus Flush and Reopen", dOther)))
 
 	// boundary arguments
-	long := func(n int, b byte) []byte {
-		k := make([]byte, n)
-		for i := range k {
-			k[i] = b
-		}
-		return k
-	}
+	long := func(n int, b byte) []byte { return longKey(string([]byte{b}), n) }
 	type arg struct {
 		name string
 		k, v []byte
